@@ -4,6 +4,7 @@ from ..expressions import (
     AddExpression,
     BinaryExpression,
     ConstantExpression,
+    EqualExpression,
     MathExpression,
     MultiplyExpression,
     NegateExpression,
@@ -69,6 +70,7 @@ class ConstantsSimplifyRule(BaseRule):
         # (4 * 2) + 3
         if (
             isinstance(node, BinaryExpression)
+            and not isinstance(node, EqualExpression)
             and isinstance(node.left, ConstantExpression)
             and isinstance(node.right, ConstantExpression)
         ):
